@@ -24,7 +24,7 @@ SYMBOLS = (
     + [H.E(1, a) for a in (1, 2)]
     + [H.S(a) for a in (1, 2, 3)]
     + [H.S(H.ALL), H.S(1, fee=1)]
-    + [H.M(2, 1)]
+    + [H.M(2, 1), H.M(2, 1, src=0, dst=0)]  # the fee of a transfer leaves the holder also when the transfer goes to the same account
 )
 FIRST = [s for s in SYMBOLS if s[0] in ("B", "E")]
 EXTRA = 1  # an over-spent node is extended by one more level (must stay rejected), then cut
@@ -45,6 +45,8 @@ def deviations(hist: History, max_dev: Any) -> List[Tuple[History, Dict[str, Any
             for tz in TZ_DEVS:
                 out.append((tuple((it[0], it[1], tz if j == i else 0) for j, it in enumerate(stepped)), {"scale": 1}, f"tz:{tz}@{i}"))
         return out
+    if max_dev == "from":
+        return [(hist, {"scale": 1, "from_last_day": True}, "a from-date on the day of the last transaction")]
     if max_dev == "prelude":
         prelude = H.materialize(PRELUDE)
         return [(hist, {"scale": 1, "prelude": prelude}, "another asset computed first with the same engine")]
@@ -81,6 +83,9 @@ def judge(st: Stats, hist: History, specs: List[Dict[str, Any]], schedule: Seque
         st.violation(dict(base, signature="C02 over-spending history accepted",
                           what=f"{sched_str(schedule)}: {H.hist_str(hist)} :: a disposal is not covered by the lots acquired so far, yet figures were produced"))
         return
+    if label.startswith("a from-date"):
+        st.inc("traces_validated_against_impl")
+        return  # the window shows a subset of the fractions: only accept / reject is judged here (C10 compares the figures)
     fr = C.fractions_of(out.computed)
     problems = ML.conservation(specs, fr)
     lots, disposals = ML.view(specs)
@@ -119,6 +124,7 @@ def plan(tier: str) -> List[Dict[str, Any]]:
             {"name": "sheet order reversed", "schedules": singles, "steps": ("=", "d"), "depth": 3, "dev": 0, "group": 4, "row_order": "reverse"},
             {"name": "one transaction in another UTC offset", "schedules": singles, "steps": ("=", "d"), "depth": 3, "dev": "tz", "group": 2, "from_depth": 2},
             {"name": "another asset computed first with the same engine", "schedules": singles, "steps": ("=", "d"), "depth": 3, "dev": "prelude", "group": 2, "from_depth": 2},
+            {"name": "accept / reject with a from-date (filters only hide rows)", "schedules": singles[:2], "steps": ("=", "d"), "depth": 3, "dev": "from", "group": 2, "from_depth": 2},
         ]
     return [
         {"name": "single methods", "schedules": singles, "steps": ("=", "d"), "depth": 5, "dev": 0, "group": 1},
@@ -127,6 +133,7 @@ def plan(tier: str) -> List[Dict[str, Any]]:
         {"name": "sheet order reversed", "schedules": singles, "steps": ("=", "d"), "depth": 4, "dev": 0, "group": 4, "row_order": "reverse"},
         {"name": "one transaction in another UTC offset", "schedules": singles, "steps": ("=", "d"), "depth": 4, "dev": "tz", "group": 1, "from_depth": 2},
         {"name": "another asset computed first with the same engine", "schedules": singles + two[:4], "steps": ("=", "d"), "depth": 4, "dev": "prelude", "group": 2, "from_depth": 2},
+        {"name": "accept / reject with a from-date (filters only hide rows)", "schedules": singles, "steps": ("=", "d"), "depth": 4, "dev": "from", "group": 2, "from_depth": 2},
     ]
 
 
